@@ -163,7 +163,9 @@ Definition run_one (top parse : Z) (e : pyexpr) : sexp :=
   SList [of_bool (wf e && wf e'); of_bool (no_parsed e);
          of_opt (fun g => SList [SStr (render fx g); SStr (gclass g);
                                  SList (map enc_item (iterate fx true g)); SList (enc_items1 g);
-                                 SStr (canon_full g); SStr (render fx (modernize g))]) b;
+                                 SStr (canon_full g); SStr (render fx (modernize g));
+                                 (* the recursive one-layer walk of a renderer (fuel 400): did it end, and its pieces *)
+                                 of_bool (forallb is_pieceb (rwalk fx 400 g)); SList (map enc_item (rwalk fx 400 g))]) b;
          SStr (ref_top topn e');
          SList (map of_nat (gaps_top fx topn e' ++ (if rule_ok (fx_litroot fx) e || negb (no_parsed e) then [] else [11])));
          SList (map SStr (src_names e'));
@@ -186,7 +188,8 @@ Definition enc_fixes (f : fixes) : sexp :=
      parse = 1 when string annotations are parsed at this position (parse_strings=True)
      env   = ((name path) ...) the bindings of the module's import statements
    result: (wf no_parsed build rprint gaps names ref_unsupported render-of-substituted drops lits_agree scope_ok)
-     build = () when _build raises, else ((str class flat-pieces one-layer-pieces canonical_path str-of-modernize))
+     build = () when _build raises, else ((str class flat-pieces one-layer-pieces canonical_path str-of-modernize
+             recursive-walk-ended recursive-walk-pieces))
    ("fixes"): the repairs the translator found in the tree under test *)
 Definition run_C03 (s : sexp) : sexp :=
   match s with
